@@ -43,3 +43,26 @@ impl JoinH {
 #[verifier::external_body] pub fn vec_next<T>(v: &mut Vec<T>) -> (r: Option<T>)
     ensures r is None <==> old(v)@.len() == 0, r is Some ==> final(v)@.len() == old(v)@.len() - 1, r is None ==> final(v)@.len() == 0
 { unimplemented!() }
+// ---- run_bg: the task's handle on the DatabaseInner must not be an owner ----
+#[verifier::external_body] pub struct RawPtr { _p: core::marker::PhantomData<u8> }
+#[verifier::external_body] pub struct ManuallyDropDb { _p: core::marker::PhantomData<u8> }
+impl Arc {
+    // the pointer inside the Arc: no effect on the counts
+    #[verifier::external_body] pub fn as_ptr(a: &ArcInner, Tracked(w): Tracked<&mut BgW>) -> (r: RawPtr) ensures *final(w) == *old(w) { unimplemented!() }
+    // consumes the handle without releasing its count
+    #[verifier::external_body] pub fn into_raw(a: ArcInner, Tracked(w): Tracked<&mut BgW>) -> (r: RawPtr) ensures *final(w) == *old(w) { unimplemented!() }
+    // a handle on the same allocation; the count is not touched (which is why the caller must not let it drop)
+    #[verifier::external_body] pub fn from_raw(p: RawPtr, Tracked(w): Tracked<&mut BgW>) -> (r: ArcInner) ensures *final(w) == *old(w) { unimplemented!() }
+}
+impl ArcInner {
+    // Arc::clone: one more owner
+    #[verifier::external_body] pub fn clone(&self, Tracked(w): Tracked<&mut BgW>) -> (r: ArcInner)
+        ensures final(w).strong == old(w).strong + 1, final(w).weak == old(w).weak, final(w).running == old(w).running, final(w).listed == old(w).listed, final(w).wake == old(w).wake { unimplemented!() }
+}
+// ManuallyDrop::new(db): the wrapped handle is never dropped, so its count is never released
+#[verifier::external_body] pub fn manually_drop_new(db: Database) -> ManuallyDropDb { unimplemented!() }
+impl Database {
+    // self.0.bg_tasks.lock().push(thread::spawn(move || f(&db))): one more running task, one more stored handle
+    #[verifier::external_body] pub fn spawn_and_list<F>(&self, db: ManuallyDropDb, f: F, Tracked(w): Tracked<&mut BgW>)
+        ensures final(w).running == old(w).running + 1, final(w).listed == old(w).listed + 1, final(w).strong == old(w).strong, final(w).weak == old(w).weak, final(w).wake == old(w).wake { unimplemented!() }
+}
